@@ -218,24 +218,6 @@ def s5(ctx, rep):
     queue, flag = "_trial_decisions_stack", "stopped"
     prod = c.methods["on_trial_result"]
     cons = c.methods["_suggest"]
-    # producer: what is parked
-    app = [x for x in walk_shallow(prod.node) if isinstance(x, ast.Call) and fn_name(x) in ("append", "appendleft") and queue in U(x.func.value)]
-    if len(app) != 1 or not isinstance(argn(app[0], 0), ast.Tuple):
-        raise AnchorError("PBT.on_trial_result: parking of (source id, config) on the decision stack not recognised")
-    src_var = U(argn(app[0], 0).elts[0])
-    # the source is selected among trials that are not stopped
-    q = c.methods["_quantiles"]
-    sel_ok = any(isinstance(n, ast.If) and any(a[0] == "truth" and a[1].endswith("." + flag) and a[2] is False for a in atoms_of(n.test, True))
-                 for n in walk_shallow(q.node))
-    # every writer of the flag is a stop: the flag must be what _quantiles filters on
-    writers = [x for m_ in c.methods.values() for x in walk_shallow(m_.node) if isinstance(x, ast.Assign)
-               and any(isinstance(t, ast.Attribute) and t.attr == flag for t in x.targets)]
-    rep.put(sel_ok, "S5", "guarded_by", "PopulationBasedTraining._quantiles selects clone sources among trials that are not stopped", q, None,
-            f"filter `not state.{flag}`; {len(writers)} writer(s) of the flag",
-            f"_quantiles does not exclude trials with `state.{flag}`: a trial stopped at max_t (its checkpoint is deleted with "
-            "delete_checkpoints=True) keeps its score and is chosen as the trial to clone from")
-    if not sel_ok:
-        return
     # the flag says what the filter takes it to say: whenever the scheduler answers STOP for a trial (the backend then deletes
     # its checkpoint), that trial's state has been marked before
     cp = cfg_of(prod)
@@ -252,6 +234,28 @@ def s5(ctx, rep):
         rep.put(not unmarked, "S5", "must_precede", f"PopulationBasedTraining.on_trial_result: `{flag} = True` precedes every STOP decision", prod,
                 cp.nodes[sid].ast, "", f"a path answers STOP without marking the trial as {flag}: the backend deletes the checkpoint of a stopped trial, "
                 "but the trial keeps its score in _quantiles and can be drawn as the trial to clone the next one from")
+    if any(i.status == "violation" and "precedes every STOP decision" in i.construct for i in rep.items):
+        return      # the producer side is broken: the hand-off rules below presuppose it
+    # producer: what is parked
+    from ..engine import deref
+    app = [x for x in walk_shallow(prod.node) if isinstance(x, ast.Call) and fn_name(x) in ("append", "appendleft") and queue in U(x.func.value)]
+    parked = deref(prod, argn(app[0], 0)) if len(app) == 1 and argn(app[0], 0) is not None else None
+    if parked is None or not isinstance(parked, ast.Tuple) or len(parked.elts) != 2:
+        raise AnchorError("PBT.on_trial_result: parking of (source id, config) on the decision stack not recognised")
+    src_var = U(parked.elts[0])
+    # the source is selected among trials that are not stopped
+    q = c.methods["_quantiles"]
+    sel_ok = any(isinstance(n, ast.If) and any(a[0] == "truth" and a[1].endswith("." + flag) and a[2] is False for a in atoms_of(n.test, True))
+                 for n in walk_shallow(q.node))
+    # every writer of the flag is a stop: the flag must be what _quantiles filters on
+    writers = [x for m_ in c.methods.values() for x in walk_shallow(m_.node) if isinstance(x, ast.Assign)
+               and any(isinstance(t, ast.Attribute) and t.attr == flag for t in x.targets)]
+    rep.put(sel_ok, "S5", "guarded_by", "PopulationBasedTraining._quantiles selects clone sources among trials that are not stopped", q, None,
+            f"filter `not state.{flag}`; {len(writers)} writer(s) of the flag",
+            f"_quantiles does not exclude trials with `state.{flag}`: a trial stopped at max_t (its checkpoint is deleted with "
+            "delete_checkpoints=True) keeps its score and is chosen as the trial to clone from")
+    if not sel_ok:
+        return
     # consumer: pop and use as checkpoint_trial_id
     pops = [x for x in walk_shallow(cons.node) if isinstance(x, ast.Call) and fn_name(x) in ("pop", "popleft") and queue in U(x.func.value)]
     if len(pops) != 1:
